@@ -1629,6 +1629,9 @@ def _inverse_of_direct(x, which):
     if not d or d[0] != 'cos':
         return None
     ang = SReal(Poly({d[1]: Fr(1, d[2])}))
+    lo_, hi_ = poly_interval(ang.n)
+    if lo_ is not None and hi_ is not None and lo_ >= 0 and hi_ <= CTX.bounds['pi'][0]:
+        return ang
     s = solver(3000)
     s.add(z3.Not(z3.And(ang.z3() >= 0, ang.z3() <= CTX.zv('pi'))))
     if check(s) == z3.unsat:
@@ -1659,6 +1662,16 @@ def exp(x):
         CTX.defs[nm] = ('exp', x)
         CTX.sign[nm] = 'pos'
         CTX.facts.append(CTX.zv(nm) > 0)
+        if x.d.is_const():
+            zx = x.z3()
+            CTX.facts.append(CTX.zv(nm) >= 1 + zx)                      # e^x >= 1 + x
+            CTX.facts.append(CTX.zv(nm) * (1 - zx) <= 1)                # e^x <= 1/(1-x) for x < 1 ; trivially true for x >= 1
+            lo_, hi_ = poly_interval(x.n.scale(1 / x.d.const_val()))
+            try:
+                CTX.bounds[nm] = (Fr(_math.exp(float(lo_))) * Fr(999999, 1000000) if lo_ is not None and lo_ < 700 else Fr(0),
+                                  Fr(_math.exp(float(hi_))) * Fr(1000001, 1000000) if hi_ is not None and hi_ < 700 else None)
+            except (OverflowError, ValueError):
+                pass
     return SReal.var(CTX.atoms[key])
 
 
@@ -1688,6 +1701,16 @@ def log(x):
         nm = CTX.fresh('l')
         CTX.atoms[key] = nm
         CTX.defs[nm] = ('log', x)
+        if x.d.is_const():
+            zx = x.z3()
+            CTX.facts.append(CTX.zv(nm) <= zx - 1)                      # log x <= x - 1
+            CTX.facts.append(CTX.zv(nm) * zx >= zx - 1)                 # log x >= 1 - 1/x  (x > 0)
+            lo_, hi_ = poly_interval(x.n.scale(1 / x.d.const_val()))
+            try:
+                CTX.bounds[nm] = (Fr(_math.log(float(lo_))) - Fr(1, 10 ** 9) if lo_ is not None and lo_ > 0 else None,
+                                  Fr(_math.log(float(hi_))) + Fr(1, 10 ** 9) if hi_ is not None and hi_ > 0 else None)
+            except (OverflowError, ValueError):
+                pass
     return SReal.var(CTX.atoms[key])
 
 
